@@ -168,7 +168,7 @@ Definition kraus_to_choi (Ks : list oper) : res (sobj GZ) :=
     else
     Ok (mkS (mbuild len_op len_op (fun I J =>
                gsum (map (fun K => gmul (vecF K I) (gconj (vecF K J))) Ks)))
-            ((o_dl K0, o_dr K0), (o_dl K0, o_dr K0)) Choi)
+            ((o_dr K0, o_dl K0), (o_dr K0, o_dl K0)) Choi)   (* [kraus_ops[0].dims[::-1]] * 2 *)
   end.
 
 (* -------------------------------------------------------------- Pauli / chi *)
@@ -192,11 +192,11 @@ Fixpoint pauli_str (nq k r c : nat) : GZ :=
   end.
 
 (* _superpauli_basis(nq).data : row k of the CSR scratch is the column
-   stacking of string k; the result is its adjoint, so
-   B[I, k] = conj (vec P_k)[I],  I = col * 2^nq + row. *)
+   stacking of string k; the result is its transpose, so
+   B[I, k] = (vec P_k)[I],  I = col * 2^nq + row. *)
 Definition superpauli (nq : nat) : list GZ :=
   let d := 2 ^ nq in
-  mbuild (d * d) (d * d) (fun I k => gconj (pauli_str nq k (I mod d) (I / d))).
+  mbuild (d * d) (d * d) (fun I k => pauli_str nq k (I mod d) (I / d)).
 
 (* int(x).bit_length() - 1 *)
 Fixpoint log2_fuel (fuel x : nat) : nat :=
@@ -291,19 +291,24 @@ Definition ptrace_keep0 (n0 n1 : nat) (data : list GZ) : list GZ :=
   mbuild n0 n0 (fun i j =>
     gsum (map (fun a => mget data (n0 * n1) (i * n1 + a) (j * n1 + a)) (seq 0 n1))).
 
-Definition is_identity (n : nat) (data : list GZ) : bool :=
-  forallb (fun r => forallb (fun c => geqb (mget data n r c) (if r =? c then g1 else g0))
+(* the matrix equals k times the identity (k = 1 for exact Choi data; a chi
+   matrix is converted by _chi_to_choi, whose exact numerator carries the
+   factor shape[0]) *)
+Definition is_identity_scaled (k : GZ) (n : nat) (data : list GZ) : bool :=
+  forallb (fun r => forallb (fun c => geqb (mget data n r c) (if r =? c then k else g0))
                             (seq 0 n)) (seq 0 n).
+Definition is_identity (n : nat) (data : list GZ) : bool := is_identity_scaled g1 n data.
 
 (* qobj.py::Qobj.istp on a super-type object whose data is exact:
-   choi and chi objects are used as they are, anything else goes through
-   to_choi; dims are collapsed; ptrace([0]) (ValueError when dims[0] !=
+   choi objects are used as they are, anything else (super, chi, oper) goes
+   through to_choi; dims are collapsed; ptrace([0]) (ValueError when dims[0] !=
    dims[1]) must be the identity.  The boolean is None when the code raises. *)
-Definition istp_sobj (q : sobj GZ) : option bool :=
+Definition istp_sobj_scaled (k : GZ) (q : sobj GZ) : option bool :=
   let '((a, b), (c, d)) := s_dims q in
   let n0 := prodl a in let n1 := prodl b in
   if negb ((prodl c =? n0) && (prodl d =? n1)) then None    (* ptrace ValueError *)
-  else Some (is_identity n0 (ptrace_keep0 n0 n1 (s_data q))).
+  else Some (is_identity_scaled k n0 (ptrace_keep0 n0 n1 (s_data q))).
+Definition istp_sobj (q : sobj GZ) : option bool := istp_sobj_scaled g1 q.
 
 Definition istp (x : qobj) : option bool :=
   match x with
@@ -311,19 +316,23 @@ Definition istp (x : qobj) : option bool :=
   | QSuper q =>
       match s_rep q with
       | Super => match to_choi x with Ok J => istp_sobj J | _ => None end
-      | _ => istp_sobj q
+      | Choi => istp_sobj q
+      | Chi => match chi_to_choi q with
+               | Ok (J, N) => istp_sobj_scaled (gofnat N) J
+               | _ => None
+               end
       end
   | QOper _ => match to_choi x with Ok J => istp_sobj J | _ => None end
   end.
 
 (* ------------------------------------------------- Stinespring assembly *)
-(* superop_reps.py::_svd_u_to_kraus: (U * S) is d^2 x dK;
-   reshape((d, d, dK), order='F').transpose((2, 0, 1)) :
-   K_k[i, j] = (U*S)[i + d*j, k] *)
-Definition svd_u_to_kraus (U : list GZ) (S : list GZ) (d dK : nat)
+(* superop_reps.py::_svd_u_to_kraus: (U * S) is (dO*dI) x dK;
+   reshape((dO, dI, dK), order='F').transpose((2, 0, 1)) :
+   K_k[a, i] = (U*S)[a + dO*i, k], dims [outdims, indims] *)
+Definition svd_u_to_kraus (U : list GZ) (S : list GZ) (dO dI dK : nat)
     (indims outdims : list nat) : list oper :=
-  map (fun k => mkO d d outdims indims
-        (mbuild d d (fun i j => gmul (mget U dK (i + d * j) k) (nth k S g0))))
+  map (fun k => mkO dO dI outdims indims
+        (mbuild dO dI (fun a i => gmul (mget U dK (a + dO * i) k) (nth k S g0))))
       (seq 0 dK).
 
 (* _choi_to_stinespring block assembly: A = sum_k tensor(K_k, basis(dK, k)),
